@@ -30,6 +30,8 @@ BAG = {
     "ppt": '<<"join","join","join","reg","reg","call","call","call","answer","answer","answer","pub","pub","sub","sub","leave","adv","cancel">>',
     # wamp.session.modify_details: identity details change or go; then filters, disclosure, kills, the meta API
     "mod": '<<"join","join","sub","sub","reg","mmod","mmod","mmod","pub","pub","call","msess","msess","kill","leave">>',
+    # realms with event history: subscriptions that exist without subscribers, watched through the meta API
+    "histmeta": '<<"join","join","wsub","sub","sub","sub","unsub","msub","msub","pub","leave","hist">>',
     "killx": '<<"join","join","sub","wsub","tst","tst","kill","kill","kill","leave","msess","pub">>',
     "stallburst": '<<"join","join","sub","sub","sub","stall","bpub","bpub","bpub","resume","pub","leave">>',
     "burst": '<<"join","join","sub","sub","sub","reg","pub","bpub","bpub","bpub","leave","bmix">>',
@@ -83,7 +85,8 @@ PROPS = {
                      dict(bag="kill", depth=18, quick=60, thorough=1500),
                      dict(bag="tst", depth=18, quick=50, thorough=1000),
                      dict(bag="pci", depth=16, quick=60, thorough=1000),
-                     dict(bag="ppt", depth=16, quick=60, thorough=1000, mode="ppt")],
+                     dict(bag="ppt", depth=16, quick=60, thorough=1000, mode="ppt"),
+                     dict(bag="hist", depth=16, quick=50, thorough=800, mode="hist")],
                 classes=["sess", "pubsub", "meta", "rpcreply", "rpcroute", "rpcintr", "snap"]),
     "C18": dict(family="core",
                 mc=dict(kinds=["join", "wsub", "sub", "reg", "kill", "tst", "leave"],
@@ -92,7 +95,8 @@ PROPS = {
                 gen=[dict(bag="meta", depth=18, quick=140, thorough=2500),
                      dict(bag="kill", depth=18, quick=80, thorough=2000),
                      dict(bag="tst", depth=18, quick=80, thorough=1500),
-                     dict(bag="mod", depth=16, quick=80, thorough=1500)],
+                     dict(bag="mod", depth=16, quick=80, thorough=1500),
+                     dict(bag="histmeta", depth=16, quick=70, thorough=1200, mode="hist")],
                 classes=["sess", "meta", "metaapi", "rpcreply", "pubsub"], poison=True),
     "C20": dict(family="core",
                 mc=dict(kinds=["join", "sub", "unsub", "pub", "leave"], inv=MC_PUBSUB + ["C20_Retention"],
